@@ -28,6 +28,14 @@ class Ctx:
     def field(self, obj: VRef, name: str) -> V:
         return self.ex.read_field(obj, name)
 
+    def old_arrays(self, sort: str, field: str):
+        """heap arrays of a field in the pre-state (the initial arrays when the field was not touched before)"""
+        key = (sort, field)
+        if key in self.old_heap:
+            return self.old_heap[key]
+        t = self.ex.world.field_type(sort, field)
+        return [z3.Const(f"H0.{sort}.{field}" + (f"!{i}" if i else ""), z3.ArraySort(ref_sort(sort), s)) for i, s in enumerate(flat_sorts(t))]
+
     def old_field(self, obj: VRef, name: str) -> V:
         cur = self.ex.heap
         self.ex.heap = dict(self.old_heap)
